@@ -264,6 +264,7 @@ type conformFamily struct {
 	name         string
 	stride       int
 	thoroughOnly bool
+	sameInQuick  bool // small family: the quick tier runs all of it too
 	par          int
 }
 
@@ -271,6 +272,7 @@ var conformProps = map[string][]conformFamily{
 	"C09": {{name: "C09", stride: 1, par: 6}},
 	"C08": {{name: "C08", stride: 1, par: 6}},
 	"C06": {{name: "C06-time", stride: 1, thoroughOnly: true, par: 64}},
+	"C07": {{name: "C07-collision", stride: 1, par: 32, sameInQuick: true}},
 }
 
 type conformResult struct {
@@ -543,7 +545,9 @@ func runCheck(prop, tier string, seed int64) int {
 				if f.thoroughOnly {
 					continue
 				}
-				stride *= 10
+				if !f.sameInQuick {
+					stride *= 10
+				}
 			}
 			cr := conformance(f, tier, stride)
 			crs = append(crs, cr)
